@@ -750,3 +750,42 @@ Definition opens_on_claims (w : wobj) : Prop :=
   | WEnc h i => j_state h = JOpens /\ j_cty_jwt h = true /\ i <> IOther
   | _ => True
   end.
+
+(* ------------------------------------------------------------------ dynamic client registration: how a client's
+   request_object_signing_alg gets into the client database (idpyoidc.server.oidc.registration.Registration:
+   filter_client_request / match_claim, then do_client_registration copies what is left into the record).
+   Only the part C16 depends on is transcribed: everything else about the request (redirect URIs, sector, ...) is
+   C19's subject and enters as the flag rq_ok and the ready-made rest of the record rq_rest. *)
+Record regreq := {
+  rq_alg : option pystr;       (* request_object_signing_alg the client asks for (None: it does not say) *)
+  rq_ok : bool;                (* the rest of the request is acceptable *)
+  rq_rest : client }.          (* the record the provider builds (id it assigned, redirect URIs, ...); c_reg ignored *)
+(* match_claim for a single-valued claim: a value the provider advertises is kept, any other value is dropped and the
+   registration goes on without it (the response then lacks the parameter: the provider's supported set applies).
+   The provider's OWN signing keys play no part: request objects are verified with the client's keys. *)
+Definition negotiate (g : cfg) (a : option pystr) : regalg :=
+  match a with
+  | Some x => if str_in x (prov_algs g) then RStr x else RAbsent
+  | None => RAbsent
+  end.
+Definition with_reg (c : client) (r : regalg) : client :=
+  {| c_id := c_id c; c_reg := r; c_redirect := c_redirect c; c_request_uris := c_request_uris c; c_rtypes := c_rtypes c;
+     c_enc_alg := c_enc_alg c; c_enc_enc := c_enc_enc c |}.
+(* cdb[client_id] = record: a new key of the client database *)
+Definition add_client (g : cfg) (ci : client) : cfg :=
+  {| oidc := oidc g; has_par := has_par g; methods := methods g; methods_configured := methods_configured g;
+     hooks := hooks g; par_hooks := par_hooks g; prov_algs := prov_algs g; ru_supported := ru_supported g; ttl := ttl g;
+     jar := jar g; clients := (clients g ++ [ci])%list; prov_enc_algs := prov_enc_algs g; prov_enc_encs := prov_enc_encs g |}.
+(* RegStored g' ci: 201; g' = the provider afterwards, ci = the record stored = what the registration response echoes
+   and the registration-read endpoint returns.  RegRefused: an error response; the provider is as before. *)
+Inductive regres := RegRefused | RegStored (g' : cfg) (ci : client) | RegUnmodelled.
+Definition register (g : cfg) (rq : regreq) : regres :=
+  if negb (rq_ok rq) then RegRefused else
+  match c_id (rq_rest rq) with
+  | [] => RegUnmodelled
+  | _ =>
+      match find_client (clients g) (c_id (rq_rest rq)) with
+      | Some _ => RegUnmodelled          (* the id generator only hands out ids that are not in use *)
+      | None => let ci := with_reg (rq_rest rq) (negotiate g (rq_alg rq)) in RegStored (add_client g ci) ci
+      end
+  end.
